@@ -14,7 +14,8 @@
 From Coq Require Import NArith ZArith Arith List Bool.
 From Pq Require Import Base.Bytes Base.Err Codec.Varint Codec.Zigzag Codec.Bitpack
   Codec.Hybrid Impl.CVarint Impl.CBitpack Impl.CRle Impl.CDelta
-  Proofs.CodecProofs Proofs.CBitpackProofs Proofs.CRleProofs Proofs.CVarintProofs.
+  Codec.Plain Proofs.CodecProofs Proofs.PlainProofs Proofs.HybridProofs
+  Proofs.CBitpackProofs Proofs.CRleProofs Proofs.CVarintProofs.
 Import ListNotations.
 Open Scope N_scope.
 
@@ -44,6 +45,32 @@ Theorem C11_bitpack_roundtrip : forall w vs rest,
   bp_dec w (N.of_nat (length vs)) (bp_enc w vs ++ rest) = vs.
 Proof. exact bp_roundtrip. Qed.
 Print Assumptions C11_bitpack_roundtrip.
+
+(* RLE / bit-packed hybrid: every width, every mixture of well-formed runs, every number n of wanted values,
+   strict or lenient reader, anything may follow the stream *)
+Theorem C11_hybrid_roundtrip : forall strict w rs n rest,
+  Forall (run_wf w) rs -> (N.to_nat n <= length (allvals rs))%nat ->
+  exists r, hyb_dec strict w n (hyb_enc w rs ++ rest) = Some (firstn (N.to_nat n) (allvals rs), r).
+Proof. exact hyb_roundtrip. Qed.
+Print Assumptions C11_hybrid_roundtrip.
+
+Theorem C11_hybrid_len_roundtrip : forall strict w rs n rest,
+  Forall (run_wf w) rs -> (N.to_nat n <= length (allvals rs))%nat ->
+  N.of_nat (length (hyb_enc w rs)) < 2 ^ 32 ->
+  hyb_dec_len strict w n (hyb_enc_len w rs ++ rest) = Some (firstn (N.to_nat n) (allvals rs), rest).
+Proof. exact hyb_len_roundtrip. Qed.
+Print Assumptions C11_hybrid_len_roundtrip.
+
+Theorem C11_byte_array_roundtrip : forall xs rest,
+  Forall (fun x => N.of_nat (length x) < 2 ^ 32) xs ->
+  ba_dec (length xs) (ba_enc xs ++ rest) = Some (xs, rest).
+Proof. exact ba_roundtrip. Qed.
+Print Assumptions C11_byte_array_roundtrip.
+
+Theorem C11_boolean_roundtrip : forall bs rest,
+  Forall (fun b => b < 2) bs -> bool_dec (N.of_nat (length bs)) (bool_enc bs ++ rest) = bs.
+Proof. exact bool_roundtrip. Qed.
+Print Assumptions C11_boolean_roundtrip.
 
 (* ---- impl = spec ---- *)
 (* cencoding.read_bitpacked: a run of g groups (8g values) of width 0 < w <= 24 whose g*w bytes are
